@@ -1,9 +1,34 @@
 """C14 Output bytes are a deterministic function of objects and configuration."""
+import codec
 import codec_common as CC
+import run
+import sched_common as SCH
+from framework import Task
 
 
 def tasks(tier, seed):
     ts = CC.rt_tasks(tier, kinds={'uninit_output'}) + CC.rt_tasks(tier, kinds={'uninit_output'}, entry='h_default')
+    # sparse population: only the members that steer the codec's control flow (found by a pre-run: they occur in a path
+    # condition of the round-trip harness) are set, symbolically; every other member keeps its constructed value, so a
+    # member without initialiser that only one variant emits shows up as dependence on never-written memory
+    classes = codec.classes()
+    sel = run.pmap(lambda c: (c, codec.selectors(c)), [(c,) for c in classes])
+    for item in sel:
+        if isinstance(item, dict):
+            continue
+        cls, names = item
+        if not names:
+            continue
+        fills = ' '.join('vp_fill(a.%s, "%s");' % (n, n) for n in names)
+        txt = '#define VP_SPARSE_FILL %s\n' % fills + codec.gen(cls, maxlen=0)
+        ts.append(Task('%s.h_sparse' % cls, txt, 'h_sparse', codec.make_uninit_judge(cls),
+                       desc='%s constructed in never-written heap memory, only its control-flow-steering members (%s) set '
+                            'symbolically, everything else as constructed; write()' % (cls, ', '.join(names)),
+                       reach=('h_sparse:end',), bounds='one object', kinds={'uninit_output'}, opts=dict(validate=False)))
+    # independence from timing: sessions whose payload is an exact multiple of the container size, every schedule with one preemption
+    ts += SCH.sched_tasks(tier, ['CHECK_C04'], 'sched_exact', ('C04:',), {'schedule_dependent', 'assert', 'deadlock', 'hang'}, digest=True,
+                          extra_defs='#define CONTAINER_DIVIDES_PAYLOAD 2\n')
+    ts += SCH.sched_tasks(tier, ['CHECK_C04'], 'sched', ('C04:',), {'schedule_dependent', 'assert', 'deadlock', 'hang'}, digest=True)
     meta = dict(
         level='model_checking',
         explanation='Objects live in heap/stack memory whose never-written bytes are distinct unconstrained symbols '
@@ -12,6 +37,6 @@ def tasks(tier, seed):
                     'default-constructed objects (h_default) of every class.',
         trusted_base=CC.TRUSTED,
         bounds='as C03',
-        assumptions=['independence from thread timing is the C07/C15 argument (container boundaries depend only on '
-                     'byte counts)'])
+        assumptions=['independence from thread timing beyond one preemption is the C07/C15 argument (container boundaries depend only on '
+                     'byte counts)'], post=SCH.digest_post)
     return ts, meta
